@@ -61,6 +61,19 @@ CLAIMED['C07'] = dict(
          "(C17), <= 2 (thorough 3) skipped ranges, all counters < 2^32. Outside: how skipped ranges are recorded by the visitors, and the classifier itself.",
     design='§5 C07')
 
+CLAIMED['C06'] = dict(
+    category='model_checking',
+    text="Symbolic execution of the real MIR of: bin/main.rs::format (exit status = operational | parsing | ((diff | check) & --check) for 0..2 input "
+         "files with every environment call uninterpreted), GetOptsOptions::apply_to incl. the real Config::override_value dispatch (--check always "
+         "ends with the diff emitter, for any other flag combination and any inline --config pair), create_emitter (a writing emitter exactly for "
+         "EmitMode::Files, the backup one exactly with make_backup), every emitter's emit_formatted_file (DiffEmitter.has_diff <=> texts differ; "
+         "FilesEmitter writes exactly when they differ, writes the formatted text to the file itself and never reports has_diff; the other five "
+         "emitters reach no file-system write on any path) and ReportedErrors::add. Texts are uninterpreted values compared for equality.",
+    note="Trusted: MIR printer, mirsym with under-constrained objects, make_diff's contract (empty iff same lines; proved under C12), printing / Display "
+         "uninterpreted, frame condition that formatting an input does not assign session.config. Counterexamples are replayed by running the real "
+         "binary over a matrix of modes/files and comparing exit status and file hashes. Outside: mtimes, stdin/path text agreement, --check on stdin.",
+    design='§5 C06')
+
 NA = {
     'C01': "token-sequence equivalence over all programs requires symbolic execution of rustc_parse and ~30 kLoC of AST rewriters; no encodable kernel carries it",
     'C02': "fixed-point of the full formatting pipeline (parser + all rewriters on both sides); not encodable, and idempotence of kernels does not imply it",
